@@ -1,0 +1,11 @@
+//go:build verif
+
+package fasthttp
+
+// Exports for the C11 harness (/verif/harness/c11): unexported reset functions.
+
+// VerifC11CtxReset calls RequestCtx.reset.
+func VerifC11CtxReset(ctx *RequestCtx) { ctx.reset() }
+
+// VerifC11RequestResetSkipHeader calls Request.resetSkipHeader.
+func VerifC11RequestResetSkipHeader(req *Request) { req.resetSkipHeader() }
